@@ -331,6 +331,8 @@ def render(tokens, mode="min", at=None):
                 sep = " "
             elif mode == "newline":
                 sep = "\n  " if t in OPERATORS else " "
+            elif mode == "newline-after":
+                sep = "\n\t" if tokens[i - 1] in OPERATORS else " "
             if t == "as" or tokens[i - 1] == "as":
                 sep = sep or " "
             if mode == "perturb" and at == i:
@@ -343,7 +345,7 @@ def render(tokens, mode="min", at=None):
 
 
 def renderings(tokens, thorough=False):
-    outs = [render(tokens, "min"), render(tokens, "spaced"), render(tokens, "newline")]
+    outs = [render(tokens, "min"), render(tokens, "spaced"), render(tokens, "newline"), render(tokens, "newline-after")]
     if thorough:
         for i in range(1, len(tokens)):
             outs.append(render(tokens, "perturb", at=i))
